@@ -43,7 +43,8 @@ func instanceStates(pkg *packages.Package) map[string]int64 {
 func runC01(c *core.Ctx) {
 	c.Rule("R1", "Operation bitmap: exhaustive states, agreeing shifts, disjoint halves", 5)
 	c.Rule("R2", "single lookup implementation: Filter ∘ findInstancesForKey under one lock hold, RF passed on unchanged", 5)
-	c.Rule("R3", "walk bookkeeping: append ⇔ filter includes; extend ⇔ operation extends on the state; per-zone totals count all instances", 4)
+	c.Rule("R3", "walk bookkeeping: append ⇔ filter includes; extend ⇔ operation extends on the state; per-zone totals count all instances; early stop ⇔ every zone satisfied or exhausted", 5)
+	c.Rule("R5", "the token→owner index is rebuilt from the descriptor on every topology change and never modified (shared with C13.R7)", 1)
 	c.Rule("R4", "default strategy: quorum computed before filtering over max(RF, walked); keep ⇔ IsHealthy (state ∧ one-sided heartbeat age ≤ timeout); slack = healthy − quorum", 6)
 	pkg := c.Prog.Pkg("ring")
 	if pkg == nil {
@@ -212,8 +213,52 @@ func runC01(c *core.Ctx) {
 	}
 	// ---- R3
 	c01Walk(c, pkg)
+	c01Stop(c, pkg)
+	// R5: token owners are resolved through an index rebuilt from the descriptor on every topology change (shared with C13.R7)
+	c13ImmutableIndex(c, pkg, "R5")
 	// ---- R4
 	c01Filter(c, pkg)
+}
+
+// c01Stop (R3): the walk may stop early only when every zone is satisfied or exhausted: in the loop of
+// canStopLooking a zone that is neither (found < target ∧ examined < total) answers "keep looking" on
+// every path, whatever else is tested — no zone (in particular not the zone-less "" entry that keeps the
+// walk going for instances without a zone) is skipped.
+func c01Stop(c *core.Ctx, pkg *packages.Package) {
+	fn := an.FindFunc(pkg, "Ring.canStopLooking")
+	if fn == nil {
+		c.Miss("R3", "func=canStopLooking", "not found")
+		return
+	}
+	c.Analysed(fn.String())
+	g := fn.Graph()
+	loops := rangeLoops(fn, "p0")
+	if len(loops) != 1 {
+		c.Undec("R3", "walk:stop", fn.Pos(), "expected one loop over the per-zone totals")
+		return
+	}
+	header, body, _ := g.LoopBlocks(loops[0])
+	var no, yesInLoop []an.Loc
+	for _, b := range g.Blocks {
+		if r := an.ReturnOf(b); r != nil && len(r.Results) == 1 && an.InNode(loops[0], r) {
+			if fn.Canon(r.Results[0]) == "false" {
+				no = append(no, g.Locate(r))
+			} else {
+				yesInLoop = append(yesInLoop, g.Locate(r))
+			}
+		}
+	}
+	if len(no) != 1 || len(yesInLoop) != 0 {
+		c.Undec("R3", "walk:stop", loops[0].Pos(), fmt.Sprintf("expected one `return false` and no other return inside the loop, found %d/%d", len(no), len(yesInLoop)))
+		return
+	}
+	t := an.Table{G: g, From: an.Loc{B: body, I: 0}, Opts: an.ExecOpts{Header: header}, FreeUnknown: true,
+		Atoms: []an.Atom{{Name: "found", Values: []string{"lt", "eq", "gt"}}, {Name: "examined", Values: []string{"lt", "eq", "gt"}}},
+		Binder: &an.Binder{Fn: fn, Cmp: map[string]string{"p1[keyof(p0)]|p3": "found", "p2[keyof(p0)]|each(p0)": "examined"}},
+		Targets: no, Names: []string{"keep looking"},
+		Want: func(r an.Row, _ int) an.Tri { return an.FromBool(r["found"] == "lt" && r["examined"] == "lt") }}
+	res := t.Run()
+	c.Check(res.OK(), "R3", "walk:stop", loops[0].Pos(), "for every zone: keep looking ⇔ found < target ∧ examined < total, on nothing else (no zone is skipped): "+res.Summary(), res.Rows)
 }
 
 func rlockedThroughout(fn *an.Fn, mu string) bool {
